@@ -607,7 +607,9 @@ func judgeLine(b *builtArch, ln LineSpec, strict bool) (v lineVerdict) {
 				how = "?"
 			}
 			nota := o.Notation
-			if nota == "" {
+			if o.Raw != "" {
+				nota = "raw"
+			} else if nota == "" {
 				nota = "dec"
 			}
 			if x.fits {
